@@ -136,7 +136,8 @@ pub fn plan_run(verif_seed: u64, run_index: u64, lim: &Limits) -> Plan {
         GenLimits {
             max_n: n,
             min_n: n * 3 / 4,
-            max_n_3d: 1200,
+            // (half of the large 3D inputs are really large: thresholds like "32 cells per worker of a wide pool")
+            max_n_3d: if rng_bb.chance(0.5) { 2600 } else { 1200 },
             ..Default::default()
         }
     } else {
@@ -172,6 +173,15 @@ pub fn plan_run(verif_seed: u64, run_index: u64, lim: &Limits) -> Plan {
     if rng.chance(0.5) {
         let p = pick_pool(&mut rng);
         pool_sizes.push(p);
+    }
+    // Thresholds of a changed tree are typically joint ones - "this many cells per worker of a pool at least
+    // that wide" - so large inputs have to meet wide pools often, not with the product of two small
+    // probabilities: half of the large and a third of the medium-size runs get a wide first pool.
+    if (big && rng_bb.chance(0.5)) || (medium && rng_bb.chance(0.33)) {
+        let wide: Vec<usize> = sizes.iter().copied().filter(|&k| k >= 16).collect();
+        if !wide.is_empty() {
+            pool_sizes[0] = *rng_bb.pick(&wide);
+        }
     }
     // related inputs for multi-call histories
     let nvar = match rng.below(100) {
